@@ -112,12 +112,15 @@ func FromParty(p *Party) func(*wire.Envelope) bool {
 // as ChannelUpdateAcc.  The parent funding update is NOT sent: afterwards hp
 // is waiting for it.  hp's proposal handler must accept sub-channel proposals
 // from a goroutine after the handler returned (AcceptSubProposals).
-func (p *Party) HandOpenSub(hp *Party, parent *client.Channel, init *channel.Allocation, challenge uint64, limit time.Duration) (*HandSub, error) {
+func (p *Party) HandOpenSub(hp *Party, parent *client.Channel, init *channel.Allocation, challenge uint64, limit time.Duration, edit ...func(*client.SubChannelProposalMsg)) (*HandSub, error) {
 	var share client.NonceShare
 	copy(share[:], []byte("adversary nonce share 0123456789"))
 	prop, err := client.NewSubChannelProposal(parent.ID(), challenge, init, client.WithNonce(share))
 	if err != nil {
 		return nil, errors.WithMessage(err, "creating sub-channel proposal")
+	}
+	for _, f := range edit {
+		f(prop) // a hand-written proposal: fields the constructor would not produce
 	}
 	fromH := FromParty(hp)
 	accs := p.Env.Bus.Collect(func(e *wire.Envelope) bool {
